@@ -229,9 +229,16 @@ void Exec::op_basis(Client &c) {
 		std::string before = snapshot(*o); long v = fi(*f, "v"); int rv = 0; std::string w;
 		StoredBasis b = make_basis_pattern(o->m, v);
 		auto wb = [&](const StoredBasis &bb) { QSbasis *B = to_lib_basis(bb); world.expected_paths.insert("/sim/inv.bas"); int r = mpq_QSwrite_basis(o->p, B, "/sim/inv.bas"); free_lib_basis(B); return r; };
+		// a wrong-size basis that is consistent in itself: as many basic variables as it claims rows, "at upper" only on rows the problem has ranged
+		auto rebalance = [&](StoredBasis &bb) { long want = (long)bb.rstat.size(), have = 0; for (char ch : bb.cstat) have += ch == '1'; for (char ch : bb.rstat) have += ch == '1';
+			for (size_t i = 0; i < bb.rstat.size() && have < want; i++) if (bb.rstat[i] != '1') { bb.rstat[i] = '1'; have++; }
+			for (auto &ch : bb.cstat) if (have < want && ch != '1') { ch = '1'; have++; }
+			for (auto &ch : bb.cstat) if (have > want && ch == '1') { ch = '0'; have--; }
+			for (auto &ch : bb.rstat) if (have > want && ch == '1') { ch = '0'; have--; }
+			for (size_t i = 0; i < bb.rstat.size(); i++) if (bb.rstat[i] == '2' && (i >= (size_t)m || o->m.rows[i].sense != 'R')) bb.rstat[i] = '0'; };
 		switch (modn(v, 10)) {
-		case 8: { w = "loadbasis:size-both"; if (m == 0) { T("  skip"); return; } StoredBasis bb = b; int k = 1 + modn(v / 10, m); for (int t = 0; t < k; t++) { bb.rstat.pop_back(); bb.cstat.push_back('0'); } QSbasis *B = to_lib_basis(bb); rv = mpq_QSload_basis(o->p, B); free_lib_basis(B); break; }   // k columns more, k rows less: the total is right
-		case 9: { w = "loadbasis:size-both"; if (n == 0) { T("  skip"); return; } StoredBasis bb = b; int k = 1 + modn(v / 10, n); for (int t = 0; t < k; t++) { bb.cstat.pop_back(); bb.rstat.push_back('1'); } QSbasis *B = to_lib_basis(bb); rv = mpq_QSload_basis(o->p, B); free_lib_basis(B); break; }
+		case 8: { w = "loadbasis:size-both"; if (m == 0) { T("  skip"); return; } StoredBasis bb = b; int k = 1 + modn(v / 10, m); for (int t = 0; t < k; t++) { bb.rstat.pop_back(); bb.cstat.push_back('0'); } rebalance(bb); QSbasis *B = to_lib_basis(bb); rv = mpq_QSload_basis(o->p, B); free_lib_basis(B); break; }   // k columns more, k rows less: the total is right
+		case 9: { w = "loadbasis:size-both"; if (n == 0) { T("  skip"); return; } StoredBasis bb = b; int k = 1 + modn(v / 10, n); for (int t = 0; t < k; t++) { bb.cstat.pop_back(); bb.rstat.push_back('1'); } rebalance(bb); QSbasis *B = to_lib_basis(bb); rv = mpq_QSload_basis(o->p, B); free_lib_basis(B); break; }
 		case 5: { w = "writebasis:size-cols"; if (n == 0) { T("  skip"); return; } StoredBasis bb = b; bb.cstat.resize((size_t)modn(v / 10, n)); rv = wb(bb); break; }
 		case 6: { w = "writebasis:size-rows"; if (m == 0) { T("  skip"); return; } StoredBasis bb = b; bb.rstat.resize((size_t)modn(v / 10, m)); rv = wb(bb); break; }
 		case 7: { w = "writebasis:size-swapped"; if (n == m) { T("  skip"); return; } StoredBasis bb; bb.cstat.assign((size_t)m, '0'); bb.rstat.assign((size_t)n, '1'); rv = wb(bb); break; }
